@@ -557,7 +557,7 @@ theorem decodeFilter_suffix {rd rd' : Rd} {f : Filter} {buf : Bytes}
 /-! ## Blocks -/
 
 /-- the stored check field for `out` -/
-def checkBytes : CheckMethod → Bytes → Bytes
+def xzCheckBytes : CheckMethod → Bytes → Bytes
   | .none, _ => []
   | .crc32, out => leBytes 4 (crc32 out)
   | .crc64, out => leBytes 8 (crc64 out)
@@ -565,34 +565,86 @@ def checkBytes : CheckMethod → Bytes → Bytes
 
 theorem validateBlockCheck_ok {rd r : Rd} {buf : Bytes} {check : CheckMethod}
     (h : validateBlockCheck rd buf check = .ok r) :
-    rd.rem = checkBytes check buf ++ r.rem ∧ r.bad = rd.bad := by
+    rd.rem = xzCheckBytes check buf ++ r.rem ∧ r.bad = rd.bad := by
   cases check <;>
     simp only [validateBlockCheck, Except.bind_eq_ok', Except.throw_bind', ite_eq_ok, reduceCtorEq,
       and_false, false_or, Prod.exists, Except.pure_eq_ok, Rd.readU32LE_ok, Rd.readU64LE_ok,
       Except.throw_ne_ok] at h
-  · subst h; simp [checkBytes]
+  · subst h; simp [xzCheckBytes]
   · obtain ⟨crc, r1, ⟨cb, h1, h2, rfl, h3⟩, hcrc, rfl⟩ := h
     simp only [ne_eq, Decidable.not_not] at hcrc
     have := leBytes_leVal cb
     rw [h2, hcrc] at this
-    exact ⟨by rw [h1, checkBytes, this], h3⟩
+    exact ⟨by rw [h1, xzCheckBytes, this], h3⟩
   · obtain ⟨crc, r1, ⟨cb, h1, h2, rfl, h3⟩, hcrc, rfl⟩ := h
     simp only [ne_eq, Decidable.not_not] at hcrc
     have := leBytes_leVal cb
     rw [h2, hcrc] at this
-    exact ⟨by rw [h1, checkBytes, this], h3⟩
+    exact ⟨by rw [h1, xzCheckBytes, this], h3⟩
 
-theorem writeAll_perfect {bs : Array UInt8} {s s' : Sink} {u : Unit} (hs : s.script = [])
-    (h : writeAll bs s = (s', .ok u)) : s'.out = s.out ++ bs ∧ s'.script = [] := by
+theorem write1_ok_out {s s' : Sink} {bs : Bytes} {n : Nat} (h : s.write1 bs = (s', .ok n)) :
+    n ≤ bs.length ∧ s'.out = s.out ++ (bs.take n).toArray := by
+  unfold Sink.write1 at h
+  split at h
+  · cases h; simp
+  · cases h; simp
+  · rename_i k rest hk
+    simp only [Prod.mk.injEq, Except.ok.injEq] at h
+    obtain ⟨rfl, rfl⟩ := h
+    refine ⟨Nat.min_le_right _ _, ?_⟩
+    simp only
+    congr 2
+    rw [List.take_eq_take_iff]
+    omega
+  · cases h
+
+theorem writeAllList_ok_out : ∀ (n : Nat) (bs : Bytes) (s s' : Sink) (u : Unit), bs.length ≤ n →
+    writeAllList bs s = (s', .ok u) → s'.out = s.out ++ bs.toArray
+  | 0, bs, s, s', u, hn, h => by
+    have : bs = [] := List.eq_nil_of_length_eq_zero (by omega)
+    subst this
+    unfold writeAllList at h
+    simp at h
+    simp [h]
+  | n+1, bs, s, s', u, hn, h => by
+    unfold writeAllList at h
+    split at h
+    · rename_i he
+      simp only [List.isEmpty_iff] at he
+      subst he
+      cases h
+      simp
+    · rename_i he
+      split at h
+      · cases h
+      · rename_i s1 k hw
+        obtain ⟨hk, ho⟩ := write1_ok_out hw
+        split at h
+        · cases h
+        · rename_i hk0
+          split at h
+          · rename_i hge
+            cases h
+            rw [ho, List.take_of_length_le hge]
+          · rename_i hlt
+            have ih := writeAllList_ok_out n (bs.drop k) s1 s' u (by simp; omega) h
+            rw [ih, ho, Array.append_assoc]
+            congr 1
+            rw [List.append_toArray, List.take_append_drop]
+
+/-- a successful `write_all` appends exactly the buffer, whatever the sink's script -/
+theorem writeAll_ok_out {bs : Array UInt8} {s s' : Sink} {u : Unit}
+    (h : writeAll bs s = (s', .ok u)) : s'.out = s.out ++ bs := by
   unfold writeAll at h
   split at h
   · rename_i he
     cases h
     simp only [Array.isEmpty_iff] at he
-    simp [he, hs]
-  · simp only [hs, List.isEmpty_nil, if_true, Prod.mk.injEq] at h
-    obtain ⟨rfl, -⟩ := h
-    simp
+    simp [he]
+  · split at h
+    · cases h; rfl
+    · have := writeAllList_ok_out _ _ _ _ _ (Nat.le_refl _) h
+      simpa using this
 
 theorem laterFilters_props : ∀ (fs : List Filter) (buf : Bytes) {out : Bytes},
     laterFilters fs buf = .ok out → ∀ f ∈ fs, f.props.length = 1
@@ -656,10 +708,10 @@ theorem readBlockFilters_ok {bh : BlockHeader} {rd r : Rd} {out : Bytes}
       exact ⟨f, fs, mid, hf, h1, h2, fun e' he' => by rw [he] at he'; cases he'⟩
 
 theorem readBlockTail_ok {start : Nat} {rd r : Rd} {tmpbuf : Bytes} {check : CheckMethod}
-    {s s' : Sink} {rec : Record} (hs : s.script = [])
+    {s s' : Sink} {rec : Record}
     (h : readBlockTail start rd tmpbuf check s = (s', .ok (rec, r))) :
-    rd.rem = List.replicate (paddingSize (start - rd.rem.length)) 0 ++ checkBytes check tmpbuf
-      ++ r.rem ∧ r.bad = rd.bad ∧ s'.out = s.out ++ tmpbuf.toArray ∧ s'.script = [] ∧
+    rd.rem = List.replicate (paddingSize (start - rd.rem.length)) 0 ++ xzCheckBytes check tmpbuf
+      ++ r.rem ∧ r.bad = rd.bad ∧ s'.out = s.out ++ tmpbuf.toArray ∧
       rec = { unpaddedSize := start - r.rem.length - paddingSize (start - rd.rem.length),
               unpackedSize := tmpbuf.length } := by
   simp only [readBlockTail, mBind_eq_ok, liftE_eq_ok, Prod.exists,
@@ -667,10 +719,10 @@ theorem readBlockTail_ok {start : Nat} {rd r : Rd} {tmpbuf : Bytes} {check : Che
   obtain ⟨zb, r1, s1, ⟨h1, rfl⟩, r2, s2, ⟨h2, rfl⟩, u, s3, h3, unp, s4, ⟨h4, rfl⟩, ⟨rfl, rfl⟩, rfl⟩ := h
   obtain ⟨-, z1, z2⟩ := readZeroBytes_ok _ _ _ h1
   obtain ⟨v1, v2⟩ := validateBlockCheck_ok h2
-  obtain ⟨w1, w2⟩ := writeAll_perfect hs h3
+  have w1 := writeAll_ok_out h3
   simp only [subChk, ite_eq_ok, Except.ok.injEq, reduceCtorEq, and_false, or_false] at h4
   obtain ⟨-, rfl⟩ := h4
-  refine ⟨?_, by rw [v2, z2], w1, w2, rfl⟩
+  refine ⟨?_, by rw [v2, z2], w1, rfl⟩
   rw [List.append_assoc, ← v1, ← z1]
 
 /-- one block as laid out in the file -/
@@ -733,7 +785,7 @@ structure XzBlock.Valid (check : CheckMethod) (b : XzBlock) (rest : Bytes) : Pro
   hdr_pad : ∀ x ∈ b.hdrPad, x = 0
   decodes : BlockDecodes (b.filters.map (·.toFilter)) b.payload rest b.out
   pad_eq : b.pad = List.replicate (paddingSize (1 + b.hdr.length + 4 + b.payload.length)) 0
-  check_eq : b.check = checkBytes check b.out
+  check_eq : b.check = xzCheckBytes check b.out
 
 theorem decodeFilter_props {rd r : Rd} {f : Filter} {buf : Bytes}
     (h : decodeFilter rd f = .ok (buf, r)) : f.props.length = 1 := by
@@ -742,13 +794,12 @@ theorem decodeFilter_props {rd r : Rd} {f : Filter} {buf : Bytes}
   simpa using h.1
 
 theorem readBlock_ok {start : Nat} {rd r : Rd} {check : CheckMethod} {hs : UInt8} {s s' : Sink}
-    {rec : Record} (hstart : start = rd.rem.length + 1) (hbad : rd.bad = false)
-    (hscr : s.script = []) (hne : hs ≠ 0)
+    {rec : Record} (hstart : start = rd.rem.length + 1) (hbad : rd.bad = false) (hne : hs ≠ 0)
     (h : readBlock start rd check hs s = (s', .ok (rec, r))) :
     ∃ blk : XzBlock, blk.hsByte = hs ∧ hs :: rd.rem = blk.bytes ++ r.rem ∧
       blk.Valid check (blk.pad ++ blk.check ++ r.rem) ∧
       rec = { unpaddedSize := blk.unpaddedSize, unpackedSize := blk.out.length } ∧
-      s'.out = s.out ++ blk.out.toArray ∧ s'.script = [] ∧ r.bad = false := by
+      s'.out = s.out ++ blk.out.toArray ∧ r.bad = false := by
   simp only [readBlock, mBind_eq_ok, liftE_eq_ok, Prod.exists,
     mIte_eq, throwM_bind, throwM_ne_ok, and_false, false_or] at h
   obtain ⟨hsz, s1, ⟨h1, rfl⟩, bh, hr', s2, ⟨h2, rfl⟩, crc, r2, s3, ⟨h3, rfl⟩, hcrc, tmpbuf, r3, s4,
@@ -793,7 +844,7 @@ theorem readBlock_ok {start : Nat} {rd r : Rd} {check : CheckMethod} {hs : UInt8
       rw [hu] at h5'
       simp only [mIte_eq, throwM_ne_ok, and_false, false_or] at h5'
       exact h5'.2
-  obtain ⟨t1, t2, t3, t4, t5⟩ := readBlockTail_ok hscr h5''
+  obtain ⟨t1, t2, t3, t5⟩ := readBlockTail_ok h5''
   have hstart3 : start - r3.rem.length = 1 + (hs.toNat <<< 2 - 1) + 4 + payload.length := by
     have := congrArg List.length hrd
     simp only [List.length_append, htake, c2, p1] at this
@@ -804,7 +855,7 @@ theorem readBlock_ok {start : Nat} {rd r : Rd} {check : CheckMethod} {hs : UInt8
     { hsByte := hs, flags := flags, packedEnc := pk, unpackedEnc := up, filters := encs,
       hdrPad := zp, hdrCrc := cb, payload := payload, out := tmpbuf,
       pad := List.replicate (paddingSize (1 + (hs.toNat <<< 2 - 1) + 4 + payload.length)) 0,
-      check := checkBytes check tmpbuf }
+      check := xzCheckBytes check tmpbuf }
   have hhdr : blk.hdr = rd.rem.take (hs.toNat <<< 2 - 1) := by
     simp only [XzBlock.hdr, blk]; exact k1.symm
   have hhdrlen : blk.hdr.length = hs.toNat <<< 2 - 1 := by rw [hhdr, htake]
@@ -812,7 +863,7 @@ theorem readBlock_ok {start : Nat} {rd r : Rd} {check : CheckMethod} {hs : UInt8
     have := leBytes_leVal cb
     rw [c2, hcrc] at this
     rw [hhdr, this]
-  refine ⟨blk, rfl, ?_, ?_, ?_, t3, t4, by rw [t2, hr3bad]⟩
+  refine ⟨blk, rfl, ?_, ?_, ?_, t3, by rw [t2, hr3bad]⟩
   · show hs :: rd.rem = hs :: (blk.hdr ++ cb ++ payload ++ _ ++ _) ++ r.rem
     rw [hhdr]
     conv => lhs; rw [hrd, p1, t1]
@@ -909,7 +960,7 @@ theorem BlocksValid.of_mem {check : CheckMethod} : ∀ {blocks : List XzBlock} {
 def XzBlock.record (b : XzBlock) : Nat × Nat := (b.unpaddedSize, b.out.length)
 
 theorem blockLoop_ok (check : CheckMethod) : ∀ (fuel : Nat) (records : List Record) (rd : Rd)
-    {s s' : Sink} {isz : Nat} {r : Rd}, rd.bad = false → s.script = [] →
+    {s s' : Sink} {isz : Nat} {r : Rd}, rd.bad = false →
     blockLoop check fuel records rd s = (s', .ok (isz, r)) →
     ∃ (blocks : List XzBlock) (idx : XzIndex),
       rd.rem = blocks.flatMap (·.bytes) ++ idx.bytes ++ r.rem ∧
@@ -917,9 +968,9 @@ theorem blockLoop_ok (check : CheckMethod) : ∀ (fuel : Nat) (records : List Re
       idx.Valid (records.map (fun x => (x.unpaddedSize, x.unpackedSize)) ++
         blocks.map (·.record)) ∧
       isz = idx.bytes.length ∧
-      s'.out = s.out ++ (blocks.flatMap (·.out)).toArray ∧ s'.script = [] ∧ r.bad = false
-  | 0, _, _, _, _, _, _, _, _, h => by simp [blockLoop] at h
-  | fuel+1, records, rd, s, s', isz, r, hbad, hscr, h => by
+      s'.out = s.out ++ (blocks.flatMap (·.out)).toArray ∧ r.bad = false
+  | 0, _, _, _, _, _, _, _, h => by simp [blockLoop] at h
+  | fuel+1, records, rd, s, s', isz, r, hbad, h => by
     simp only [blockLoop, mBind_eq_ok, liftE_eq_ok, Prod.exists, mPure_eq_ok, mIte_eq,
       Prod.mk.injEq, Rd.readU8_ok] at h
     obtain ⟨hs, r1, s1, ⟨⟨e1, e2⟩, rfl⟩, h⟩ := h
@@ -933,7 +984,7 @@ theorem blockLoop_ok (check : CheckMethod) : ∀ (fuel : Nat) (records : List Re
             List.replicate (paddingSize (1 + cnt.length + enc.length)) 0))) }
       have hrd : rd.rem = idx.bytes ++ r2.rem := by
         rw [e1, hrem]; simp [XzIndex.bytes, idx]
-      refine ⟨[], idx, by simpa using hrd, trivial, ?_, ?_, by simp, hscr, by rw [hb, e2, hbad]⟩
+      refine ⟨[], idx, by simpa using hrd, trivial, ?_, ?_, by simp, by rw [hb, e2, hbad]⟩
       · simp only [List.map_nil, List.append_nil]
         exact { count := by simpa using m1, records := m2, pad_eq := rfl, crc_eq := rfl }
       · have := congrArg List.length hrd
@@ -941,9 +992,9 @@ theorem blockLoop_ok (check : CheckMethod) : ∀ (fuel : Nat) (records : List Re
         omega
     · have hst : rd.rem.length = r1.rem.length + 1 := by rw [e1]; simp
       have hb1 : r1.bad = false := by rw [e2, hbad]
-      obtain ⟨blk, b1, b2, b3, b4, b5, b6, b7⟩ := readBlock_ok hst hb1 hscr hne hrb
-      obtain ⟨blocks, idx, g1, g2, g3, g4, g5, g6, g7⟩ := blockLoop_ok check fuel _ _ b7 b6 h
-      refine ⟨blk :: blocks, idx, ?_, ⟨?_, g2⟩, ?_, g4, ?_, g6, g7⟩
+      obtain ⟨blk, b1, b2, b3, b4, b5, b7⟩ := readBlock_ok hst hb1 hne hrb
+      obtain ⟨blocks, idx, g1, g2, g3, g4, g5, g7⟩ := blockLoop_ok check fuel _ _ b7 h
+      refine ⟨blk :: blocks, idx, ?_, ⟨?_, g2⟩, ?_, g4, ?_, g7⟩
       · rw [e1, b2, g1]; simp
       · rw [g1] at b3; simpa using b3
       · rw [b4] at g3
@@ -982,10 +1033,10 @@ structure XzFile.Valid (f : XzFile) : Prop where
 def XzParses (x : Bytes) (check : CheckMethod) (blocks : List XzBlock) : Prop :=
   ∃ f : XzFile, f.check = check ∧ f.blocks = blocks ∧ f.Valid ∧ x = f.bytes
 
-theorem xzDecompress_ok {x : Bytes} {s s' : Sink} {rd' : Rd} (hs : s.script = [])
+theorem xzDecompress_ok {x : Bytes} {s s' : Sink} {rd' : Rd}
     (h : xzDecompress (Rd.ofBytes x) s = (s', .ok rd')) :
     ∃ f : XzFile, f.Valid ∧ x = f.bytes ∧ rd'.rem = [] ∧ rd'.bad = false ∧
-      s'.out = s.out ++ f.out.toArray ∧ s'.script = [] := by
+      s'.out = s.out ++ f.out.toArray := by
   simp only [xzDecompress, mBind_eq_ok, liftE_eq_ok, Prod.exists, mPure_eq_ok, mIte_eq,
     throwM_bind, throwM_ne_ok, and_false, false_or, Rd.readExact_ok, Rd.readU32LE_ok,
     Rd.readTag_ok] at h
@@ -999,7 +1050,7 @@ theorem xzDecompress_ok {x : Bytes} {s s' : Sink} {rd' : Rd} (hs : s.script = []
   subst hmg heof'
   obtain ⟨p1, p2, p3⟩ := parseStreamHeader_ok hh
   have hb1 : r1.bad = false := by rw [p2]; rfl
-  obtain ⟨blocks, idx, g1, g2, g3, g4, g5, g6, g7⟩ := blockLoop_ok check _ _ _ hb1 hs hbl
+  obtain ⟨blocks, idx, g1, g2, g3, g4, g5, g7⟩ := blockLoop_ok check _ _ _ hb1 hbl
   obtain ⟨rfl, -⟩ := parseStreamFlags_ok e2 hfl
   have hb6 : r6.bad = false := by rw [m3, e3, d3, c3, g7]
   have hrem6 : r6.rem = [] := by
@@ -1014,7 +1065,7 @@ theorem xzDecompress_ok {x : Bytes} {s s' : Sink} {rd' : Rd} (hs : s.script = []
   have hfooter : r2.rem = f.footer := by
     rw [c1, d1, e1, m1, hrem6, hcb]
     simp [XzFile.footer, XzFile.flags, f]
-  refine ⟨f, ?_, ?_, hrem6, hb6, g5, g6⟩
+  refine ⟨f, ?_, ?_, hrem6, hb6, g5⟩
   · refine
       { check_supported := by
           show check = .none ∨ check = .crc32 ∨ check = .crc64
@@ -1506,5 +1557,219 @@ theorem readBlockHeader_rejects_reserved {rd r : Rd} {hs : Nat} {flags : UInt8}
     readBlockHeader rd hs = .error .xz := by
   simp [readBlockHeader, h, bind, Except.bind, hres]
   rfl
+
+/-! ## The error path: what the sink holds when an error is reported (perfect sink) -/
+
+theorem mBind_eq_error {m : M α} {f : α → M β} {s s' : Sink} {e : Err} :
+    (m >>= f) s = (s', .error e) ↔
+      m s = (s', .error e) ∨ ∃ a s1, m s = (s1, .ok a) ∧ f a s1 = (s', .error e) := by
+  rw [bind_run]
+  rcases hm : m s with ⟨s1, e1 | a⟩
+  · simp
+  · constructor
+    · intro h; exact .inr ⟨a, s1, rfl, h⟩
+    · rintro (h | ⟨a', s1', h1, h⟩)
+      · cases h
+      · cases h1; exact h
+
+theorem liftE_eq_error {x : Except Err α} {s s' : Sink} {e : Err} :
+    (liftE x : M α) s = (s', .error e) ↔ x = .error e ∧ s' = s := by
+  cases x <;> simp [eq_comm, and_comm]
+
+theorem throwM_eq_error {e e' : Err} {s s' : Sink} :
+    ((throwM e : M α) s = (s', .error e')) ↔ e = e' ∧ s' = s := by
+  simp [eq_comm, and_comm]
+
+theorem mPure_ne_error {a : α} {s s' : Sink} {e : Err} :
+    ((pure a : M α) s = (s', .error e)) ↔ False := by simp
+
+theorem writeAll_perfect_ok {bs : Array UInt8} {s : Sink} (hs : s.script = []) :
+    ∃ s1, writeAll bs s = (s1, .ok ()) ∧ s1.script = [] := by
+  unfold writeAll
+  split
+  · exact ⟨s, rfl, hs⟩
+  · simp [hs]
+
+theorem readBlockTail_error {start : Nat} {rd : Rd} {tmpbuf : Bytes} {check : CheckMethod}
+    {s s' : Sink} {e : Err} (hs : s.script = []) (hstart : rd.rem.length ≤ start)
+    (h : readBlockTail start rd tmpbuf check s = (s', .error e)) : s' = s := by
+  simp only [readBlockTail, mBind_eq_error, liftE_eq_ok, liftE_eq_error, Prod.exists,
+    mPure_ne_error] at h
+  rcases h with ⟨-, h⟩ | ⟨zb, r1, s1, ⟨h1, rfl⟩, h⟩
+  · exact h
+  rcases h with ⟨-, h⟩ | ⟨r2, s2, ⟨h2, rfl⟩, h⟩
+  · exact h
+  obtain ⟨s3, hw, -⟩ := writeAll_perfect_ok (bs := tmpbuf.toArray) hs
+  rw [hw] at h
+  rcases h with h | ⟨u, s4, -, h⟩
+  · cases h
+  rcases h with ⟨h4, -⟩ | ⟨_, _, _, hf⟩
+  · exfalso
+    obtain ⟨-, z1, -⟩ := readZeroBytes_ok _ _ _ h1
+    obtain ⟨v1, -⟩ := validateBlockCheck_ok h2
+    have l1 := congrArg List.length z1
+    have l2 := congrArg List.length v1
+    simp only [List.length_append, List.length_replicate] at l1 l2
+    simp only [subChk] at h4
+    split at h4
+    · cases h4
+    · omega
+  · exact hf.elim
+
+theorem readBlockFilters_len {bh : BlockHeader} {rd r : Rd} {out : Bytes}
+    (h : readBlockFilters bh rd = .ok (out, r)) : r.rem.length ≤ rd.rem.length := by
+  unfold readBlockFilters at h
+  split at h
+  · simp only [Except.pure_eq_ok, Prod.mk.injEq] at h
+    rw [← h.2]; exact Nat.le_refl _
+  · simp only [Except.bind_eq_ok', Prod.exists] at h
+    obtain ⟨mid, r1, h1, h⟩ := h
+    obtain ⟨p, p1, -⟩ := decodeFilter_suffix h1
+    have hr : r = r1 := by
+      split at h
+      · simp only [Except.bind_eq_ok', Except.throw_bind', ite_eq_ok, reduceCtorEq,
+          and_false, false_or, Except.pure_eq_ok, Prod.mk.injEq] at h
+        obtain ⟨-, _, -, -, rfl⟩ := h; rfl
+      · simp only [Except.bind_eq_ok', Except.pure_eq_ok, Prod.mk.injEq] at h
+        obtain ⟨_, -, -, rfl⟩ := h; rfl
+    rw [hr, p1]; simp
+
+/-- the part of `readBlock` before the size comparison is sink-pure: an error there leaves the
+sink alone; its success gives a reader that is a suffix of the input -/
+theorem readBlock_error {start : Nat} {rd : Rd} {check : CheckMethod} {hs : UInt8} {s s' : Sink}
+    {e : Err} (hscr : s.script = []) (hstart : rd.rem.length ≤ start)
+    (h : readBlock start rd check hs s = (s', .error e)) : s' = s := by
+  simp only [readBlock, mBind_eq_error, liftE_eq_ok, liftE_eq_error, Prod.exists,
+    mIte_eq, throwM_bind, throwM_eq_error] at h
+  rcases h with ⟨-, h⟩ | ⟨hsz, s1, ⟨h1, rfl⟩, h⟩
+  · exact h
+  rcases h with ⟨-, h⟩ | ⟨bh, hr', s2, ⟨h2, rfl⟩, h⟩
+  · exact h
+  rcases h with ⟨-, h⟩ | ⟨crc, r2, s3, ⟨h3, rfl⟩, h⟩
+  · exact h
+  rcases h with ⟨-, -, h⟩ | ⟨-, h⟩
+  · exact h
+  rcases h with ⟨-, h⟩ | ⟨tmpbuf, r3, s4, ⟨h4, rfl⟩, h5⟩
+  · exact h
+  have h4' : readBlockFilters bh r2 = .ok (tmpbuf, r3) := h4
+  have h5' : (match bh.unpackedSize with
+      | some e => if tmpbuf.length ≠ e then throwM .xz else readBlockTail start r3 tmpbuf check
+      | none => readBlockTail start r3 tmpbuf check) s4 = (s', .error e) := h5
+  clear h4 h5
+  have hlen : r3.rem.length ≤ start := by
+    obtain ⟨cb, c1, -, -, -⟩ := Rd.readU32LE_ok.mp h3
+    obtain ⟨_, _, _, _, _, -, k2, -⟩ := readBlockHeader_ok h2
+    have l1 := congrArg List.length c1
+    simp only [Rd.unsplit, Rd.split, k2, List.nil_append, List.length_append,
+      List.length_drop] at l1
+    have l2 := readBlockFilters_len h4'
+    omega
+  cases hu : bh.unpackedSize with
+  | none =>
+    rw [hu] at h5'
+    exact readBlockTail_error hscr hlen h5'
+  | some v =>
+    rw [hu] at h5'
+    simp only [mIte_eq, throwM_eq_error] at h5'
+    rcases h5' with ⟨-, -, h⟩ | ⟨-, h⟩
+    · exact h
+    · exact readBlockTail_error hscr hlen h
+
+theorem readBlock_ok_script {start : Nat} {rd r : Rd} {check : CheckMethod} {hs : UInt8}
+    {s s' : Sink} {rec : Record} (hscr : s.script = [])
+    (h : readBlock start rd check hs s = (s', .ok (rec, r))) : s'.script = [] := by
+  simp only [readBlock, mBind_eq_ok, liftE_eq_ok, Prod.exists,
+    mIte_eq, throwM_bind, throwM_ne_ok, and_false, false_or] at h
+  obtain ⟨hsz, s1, ⟨h1, rfl⟩, bh, hr', s2, ⟨h2, rfl⟩, crc, r2, s3, ⟨h3, rfl⟩, hcrc, tmpbuf, r3, s4,
+    ⟨h4, rfl⟩, h5⟩ := h
+  have h5' : (match bh.unpackedSize with
+      | some e => if tmpbuf.length ≠ e then throwM .xz else readBlockTail start r3 tmpbuf check
+      | none => readBlockTail start r3 tmpbuf check) s4 = (s', .ok (rec, r)) := h5
+  have h5'' : readBlockTail start r3 tmpbuf check s4 = (s', .ok (rec, r)) := by
+    cases hu : bh.unpackedSize with
+    | none => rw [hu] at h5'; exact h5'
+    | some e =>
+      rw [hu] at h5'
+      simp only [mIte_eq, throwM_ne_ok, and_false, false_or] at h5'
+      exact h5'.2
+  simp only [readBlockTail, mBind_eq_ok, liftE_eq_ok, Prod.exists,
+    mPure_eq_ok, Prod.mk.injEq] at h5''
+  obtain ⟨zb, r1, s1, ⟨-, rfl⟩, r2, s2, ⟨-, rfl⟩, u, s3, hw, unp, s4, ⟨-, rfl⟩, -, rfl⟩ := h5''
+  obtain ⟨s5, hw', hs5⟩ := writeAll_perfect_ok (bs := tmpbuf.toArray) hscr
+  rw [hw'] at hw
+  cases hw
+  exact hs5
+
+/-- **Error path (perfect sink).**  When the block loop fails, the sink holds exactly the
+contents of the blocks that were completely validated before the failure. -/
+theorem blockLoop_error (check : CheckMethod) : ∀ (fuel : Nat) (records : List Record) (rd : Rd)
+    {s s' : Sink} {e : Err}, rd.bad = false → s.script = [] →
+    blockLoop check fuel records rd s = (s', .error e) →
+    ∃ (blocks : List XzBlock) (tail : Bytes),
+      rd.rem = blocks.flatMap (·.bytes) ++ tail ∧ BlocksValid check blocks tail ∧
+      s'.out = s.out ++ (blocks.flatMap (·.out)).toArray
+  | 0, _, rd, s, s', e, _, _, h => by
+    simp only [blockLoop, throwM_eq_error] at h
+    exact ⟨[], rd.rem, by simp, trivial, by simp [h.2]⟩
+  | fuel+1, records, rd, s, s', e, hbad, hscr, h => by
+    have nil : ∀ {s'' : Sink}, s'' = s → ∃ (blocks : List XzBlock) (tail : Bytes),
+        rd.rem = blocks.flatMap (·.bytes) ++ tail ∧ BlocksValid check blocks tail ∧
+        s''.out = s.out ++ (blocks.flatMap (·.out)).toArray := by
+      rintro _ rfl
+      exact ⟨[], rd.rem, by simp, trivial, by simp⟩
+    simp only [blockLoop, mBind_eq_error, liftE_eq_ok, liftE_eq_error, Prod.exists,
+      mPure_ne_error, mIte_eq, Rd.readU8_ok] at h
+    rcases h with ⟨-, h⟩ | ⟨hs, r1, s1, ⟨⟨e1, e2⟩, rfl⟩, h⟩
+    · exact nil h
+    rcases h with ⟨-, h⟩ | ⟨hne, h⟩
+    · rcases h with ⟨-, h⟩ | ⟨_, _, _, hf⟩
+      · exact nil h
+      · exact hf.elim
+    have hst : rd.rem.length = r1.rem.length + 1 := by rw [e1]; simp
+    have hb1 : r1.bad = false := by rw [e2, hbad]
+    rcases h with h | ⟨rec, r2, s2, hrb, h⟩
+    · exact nil (readBlock_error hscr (by omega) h)
+    · obtain ⟨blk, b1, b2, b3, b4, b5, b7⟩ := readBlock_ok hst hb1 hne hrb
+      have hscr2 := readBlock_ok_script hscr hrb
+      obtain ⟨blocks, tail, g1, g2, g3⟩ := blockLoop_error check fuel _ _ b7 hscr2 h
+      refine ⟨blk :: blocks, tail, ?_, ⟨?_, g2⟩, ?_⟩
+      · rw [e1, b2, g1]; simp
+      · rw [g1] at b3; simpa using b3
+      · rw [g3, b5]; simp
+
+/-- **Error path of `xz_decompress` (perfect sink).**  If an error is reported, either nothing was
+written (the stream header was refused), or the header was valid and the sink holds exactly the
+contents of the blocks `blocks` — a prefix of the file's block sequence, each fully validated
+(`BlocksValid`) — that precede the point of failure. -/
+theorem xzDecompress_error {x : Bytes} {s s' : Sink} {e : Err} (hs : s.script = [])
+    (h : xzDecompress (Rd.ofBytes x) s = (s', .error e)) :
+    s' = s ∨ ∃ (check : CheckMethod) (blocks : List XzBlock) (tail : Bytes),
+      x = XZ_MAGIC ++ [0, UInt8.ofNat check.id] ++ leBytes 4 (crc32 [0, UInt8.ofNat check.id]) ++
+        blocks.flatMap (·.bytes) ++ tail ∧
+      (check = .none ∨ check = .crc32 ∨ check = .crc64) ∧
+      BlocksValid check blocks tail ∧
+      s'.out = s.out ++ (blocks.flatMap (·.out)).toArray := by
+  simp only [xzDecompress, mBind_eq_error, liftE_eq_ok, liftE_eq_error, Prod.exists,
+    mPure_ne_error, mIte_eq, throwM_bind, throwM_eq_error] at h
+  rcases h with ⟨-, h⟩ | ⟨check, r1, s1, ⟨hh, rfl⟩, h⟩
+  · exact .inl h
+  rcases h with ⟨-, -, h⟩ | ⟨hsha, h⟩
+  · exact .inl h
+  obtain ⟨p1, p2, -⟩ := parseStreamHeader_ok hh
+  have hb1 : r1.bad = false := by rw [p2]; rfl
+  have hx : (Rd.ofBytes x).rem = x := rfl
+  rw [hx] at p1
+  have hsup : check = .none ∨ check = .crc32 ∨ check = .crc64 := by
+    revert hsha; cases check <;> simp
+  right
+  rcases h with h | ⟨isz, r2, s2, hbl, h⟩
+  · obtain ⟨blocks, tail, g1, g2, g3⟩ := blockLoop_error check _ _ _ hb1 hs h
+    exact ⟨check, blocks, tail, by rw [p1, g1]; simp, hsup, g2, g3⟩
+  · obtain ⟨blocks, idx, g1, g2, g3, g4, g5, g7⟩ := blockLoop_ok check _ _ _ hb1 hbl
+    refine ⟨check, blocks, idx.bytes ++ r2.rem, by rw [p1, g1]; simp, hsup, g2, ?_⟩
+    have hs' : s' = s2 := by
+      clear hbl g1 g2 g3 g4 g5 g7 hsup hx hb1 p1 p2 hsha hh
+      grind
+    rw [hs', g5]
 
 end Lzma
